@@ -1,7 +1,13 @@
 package main
 
 import (
+	"fmt"
+
+	"github.com/vmware/go-ipfix/pkg/entities"
+	"github.com/vmware/go-ipfix/pkg/verifshim/vsched"
+
 	"verifharness/common"
+	"verifharness/refcodec"
 )
 
 func init() { checks["C12"] = runC12 }
@@ -31,6 +37,49 @@ func c12E2(tier string) []*e2Scenario {
 	add("tcp-B-two-clients-vs-stop", []colClient{cl(1, 2, nil, true), cl(2, 1, nil, false)}, colOpts{proto: "tcp", stopper: true}, b)
 	add("tcp-C-client-dies-mid-message", []colClient{dying, cl(2, 1, nil, true)}, colOpts{proto: "tcp"}, b)
 	add("tcp-D-three-clients", []colClient{cl(1, 0, nil, true), cl(2, 0, nil, true), cl(3, 0, nil, true)}, colOpts{proto: "tcp"}, b)
+	// tcp-E: two exporters of the same observation domain use the same template id; B re-defines the
+	// template (same widths, different elements) while A's data is in flight. Every data message must be
+	// decoded wholly with one of the two definitions, never with a mixture.
+	{
+		h := refcodec.Header{ExportTime: 1000, Seq: 0, Domain: 1}
+		tA := refcodec.Template{ID: 256, Fields: []refcodec.FieldSpec{{ID: 7, Len: 2}, {ID: 4, Len: 1}, {ID: 82, Len: 65535}, {ID: 313, Len: 65535}}}
+		tB := refcodec.Template{ID: 256, Fields: []refcodec.FieldSpec{{ID: 11, Len: 2}, {ID: 5, Len: 1}, {ID: 83, Len: 65535}, {ID: 316, Len: 65535}}}
+		rec := func(i int) [][]byte { return [][]byte{{1, byte(i)}, {byte(6 + i)}, []byte("abc"), {0xde, byte(i)}} }
+		var aMsgs [][]byte
+		aMsgs = append(aMsgs, refcodec.TemplateMsg(h, tA))
+		for i := 0; i < 2; i++ {
+			h.Seq = uint32(i + 1)
+			aMsgs = append(aMsgs, refcodec.DataMsg(h, tA, [][][]byte{rec(i), rec(i + 10)}))
+		}
+		h.Seq = 50
+		bMsgs := [][]byte{refcodec.TemplateMsg(h, tB)}
+		ids := func(t refcodec.Template) string { return fmt.Sprint(t.Fields[0].ID, t.Fields[1].ID, t.Fields[2].ID, t.Fields[3].ID) }
+		oracle := func(delivered []*entities.Message) {
+			data := 0
+			for _, m := range delivered {
+				set := m.GetSet()
+				if set.GetSetType() != entities.Data {
+					continue
+				}
+				data++
+				for ri, r := range set.GetRecords() {
+					l := r.GetOrderedElementList()
+					if len(l) != 4 {
+						vsched.Fail("mixed-template", "data message seq %d record %d has %d fields", m.GetSequenceNum(), ri, len(l))
+						continue
+					}
+					got := fmt.Sprint(l[0].GetInfoElement().ElementId, l[1].GetInfoElement().ElementId, l[2].GetInfoElement().ElementId, l[3].GetInfoElement().ElementId)
+					if got != ids(tA) && got != ids(tB) {
+						vsched.Fail("mixed-template", "data message seq %d record %d was decoded with element ids %s: neither the first definition (%s) nor the re-definition (%s) of template 256 but a mixture", m.GetSequenceNum(), ri, got, ids(tA), ids(tB))
+					}
+				}
+			}
+			if data != 2 {
+				vsched.Fail("missing-delivery", "%d of 2 data messages delivered (both definitions parse the same bytes, none may be refused)", data)
+			}
+		}
+		add("tcp-E-shared-template-id-redefined", []colClient{{domain: 1, segments: aMsgs, messages: aMsgs, closeAtEnd: true}, {domain: 1, segments: bMsgs, messages: bMsgs, closeAtEnd: true}}, colOpts{proto: "tcp", oracle: oracle}, b)
+	}
 	add("udp-A-two-remotes", []colClient{cl(1, 2, nil, false), cl(2, 1, nil, false)}, colOpts{proto: "udp"}, b)
 	add("udp-B-two-remotes-vs-stop", []colClient{cl(1, 1, nil, false), cl(2, 1, nil, false)}, colOpts{proto: "udp", stopper: true}, b)
 	return out
@@ -49,7 +98,7 @@ func runC12(tier, replay string) int {
 		return 2
 	}
 	e2Evidence("C12", tier, rep, tot,
-		"every schedule up to the preemption bound of six closed scenarios (two/three TCP clients sending template+data and closing; the same against a concurrent Stop; a client dying mid-message; two UDP remotes with and without a concurrent Stop) on the real collector started through Start() on the in-memory network, with an always-draining consumer; oracle: per connection the deliveries are exactly (with Stop: a prefix of) what it sent, in order, decoded correctly; connection count returns to 0; Stop returns in every schedule (deadlock detection), afterwards no collector thread is alive, the listening socket is closed and nothing more is delivered; WaitGroup misuse and data races (happens-before over instrumented fields) in every schedule",
+		"every schedule within the delay bound of seven closed scenarios (two/three TCP clients sending template+data and closing; two exporters of one observation domain re-defining a shared template id; the same against a concurrent Stop; a client dying mid-message; two UDP remotes with and without a concurrent Stop) on the real collector started through Start() on the in-memory network, with an always-draining consumer; oracle: per connection the deliveries are exactly (with Stop: a prefix of) what it sent, in order, decoded correctly; connection count returns to 0; Stop returns in every schedule (deadlock detection), afterwards no collector thread is alive, the listening socket is closed and nothing more is delivered; WaitGroup misuse and data races (happens-before over instrumented fields) in every schedule",
 		[]string{"TLS is not run under the controlled scheduler (crypto/tls holds uninstrumented locks); the code above net.Conn is identical", "<= 3 clients", "the in-memory network loses no datagrams, so UDP at-most-once is checked as exactly-once"})
 	if !ok {
 		return 2
